@@ -783,7 +783,11 @@ impl LdapConnAsync {
 
     /// Repeatedly poll the connection until it exits.
     pub async fn drive(self) -> Result<()> {
-        self.turn(LoopMode::Continuous).await.map(|_| ())
+        let msgmap = self.msgmap.clone();
+        let res = self.turn(LoopMode::Continuous).await.map(|_| ());
+        // Nothing is routed any more: no message ID is in use on this connection.
+        msgmap.lock().expect("msgmap mutex (drive end)").1.clear();
+        res
     }
 
     #[cfg(any(feature = "tls-native", feature = "tls-rustls"))]
@@ -833,12 +837,17 @@ impl LdapConnAsync {
                                 LdapOp::Single => {
                                     if !tx.is_closed() {
                                         self.resultmap.insert(id, tx);
+                                    } else {
+                                        let mut msgmap = self.msgmap.lock().expect("msgmap mutex (caller gone)");
+                                        msgmap.1.remove(&id);
                                     }
                                     continue;
                                 },
                                 LdapOp::Search(_) => {
                                     if tx.is_closed() {
                                         self.searchmap.remove(&id);
+                                        let mut msgmap = self.msgmap.lock().expect("msgmap mutex (caller gone)");
+                                        msgmap.1.remove(&id);
                                     }
                                 },
                                 LdapOp::Abandon(msgid) => {
